@@ -2,7 +2,7 @@
 import json, os
 from . import common
 from .cli import cli_family
-from .cgt import cgt_family, law_family, report_family, calendar_family, fx_family, dsl_family, misc_family, combine, fam_list
+from .cgt import cgt_family, law_family, report_family, calendar_family, fx_family, dsl_family, misc_family, format_family, combine, fam_list
 
 
 def c01(tier, seed):
@@ -125,6 +125,16 @@ def c15(tier, seed):
                    'output; non-trivial = failing scenarios')
 
 
+def c17(tier, seed):
+    return combine([format_family(tier)], ['midpoints', 'values'],
+                   'money values in thousandths of a pound (every half-penny midpoint in -3..3, magnitudes around every digit-count '
+                   'boundary up to 2,000,000, each netted against a loss of 5.006 in the same tax year) placed in the slots of a '
+                   'TaxReport and shown by the plain-text formatter, the JSON serialiser and the PDF (text runs of the compiled '
+                   'document via the verif hook); expected strings come from Format.tla (RoundPence, Gbp, TaxYearLabel, DateUk); '
+                   'every tax-year label 1900..2100; non-trivial = midpoint values',
+                   assumptions=['MCP front-end figures are compared with the CLI in the C20 check'])
+
+
 def c11(tier, seed):
     return combine(fam_list(tier, ['events_q', 'events_split_q'], ['events_t', 'events_split_t']), 'with_events',
                    'cell ledgers with a capital return / accumulation cell at every position; TLC judges the observed '
@@ -133,7 +143,7 @@ def c11(tier, seed):
                    'non-trivial = ledgers with a cost event')
 
 
-PROPS = {'C15': c15, 'C13': c13, 'C14': c14, 'C08': c08, 'C04': c04, 'C07': c07, 'C01': c01, 'C02': c02, 'C03': c03, 'C05': c05, 'C06': c06, 'C09': c09, 'C10': c10, 'C11': c11, 'C12': c12}
+PROPS = {'C17': c17, 'C15': c15, 'C13': c13, 'C14': c14, 'C08': c08, 'C04': c04, 'C07': c07, 'C01': c01, 'C02': c02, 'C03': c03, 'C05': c05, 'C06': c06, 'C09': c09, 'C10': c10, 'C11': c11, 'C12': c12}
 
 
 def replay(prop, path):
